@@ -265,3 +265,78 @@ func BadRangeHelperNoStep(start, end, step uint, r bnd) (uint64, error) {
 	}
 	return bits(start, end, step), nil
 }
+
+// ---- N/step means N-hi/step ----
+
+func GoodNStep(parts []string, a, b, st uint, r bnd) (uint64, error) {
+	var start, end, step uint
+	single := len(parts) == 1
+	switch len(parts) {
+	case 1:
+		start, _ = parse(parts[0])
+		end = start
+	default:
+		start, _ = parse(parts[0])
+		end, _ = parse(parts[1])
+	}
+	if st == 0 {
+		step = 1
+	} else {
+		step, _ = parse("x")
+		if single {
+			end = r.hi
+		}
+	}
+	if start < r.lo || end > r.hi || start > end || step == 0 {
+		return 0, errors.New("bad")
+	}
+	return bits(start, end, step), nil
+}
+
+func BadNStepOnlyBigSteps(parts []string, a, b, st uint, r bnd) (uint64, error) {
+	var start, end, step uint
+	single := len(parts) == 1
+	switch len(parts) {
+	case 1:
+		start, _ = parse(parts[0])
+		end = start
+	default:
+		start, _ = parse(parts[0])
+		end, _ = parse(parts[1])
+	}
+	if st == 0 {
+		step = 1
+	} else {
+		step, _ = parse("x")
+		if step > 1 {
+			if single {
+				end = r.hi
+			}
+		}
+	}
+	if start < r.lo || end > r.hi || start > end || step == 0 {
+		return 0, errors.New("bad")
+	}
+	return bits(start, end, step), nil
+}
+
+func BadNStepMissing(parts []string, a, b, st uint, r bnd) (uint64, error) {
+	var start, end, step uint
+	switch len(parts) {
+	case 1:
+		start, _ = parse(parts[0])
+		end = start
+	default:
+		start, _ = parse(parts[0])
+		end, _ = parse(parts[1])
+	}
+	if st == 0 {
+		step = 1
+	} else {
+		step, _ = parse("x")
+	}
+	if start < r.lo || end > r.hi || start > end || step == 0 {
+		return 0, errors.New("bad")
+	}
+	return bits(start, end, step), nil
+}
